@@ -297,6 +297,12 @@ def classify(v, cfg):
 def run(ctx):
     thorough = ctx.tier == "thorough"
     binp = ctx.go_build("c02")
+    # ------------------------------------------------------------ the VALUE domain of measurements (MetricValue.tla, checks/c02_values.py)
+    import importlib.util
+    _sp = importlib.util.spec_from_file_location("c02_values", os.path.join(os.path.dirname(os.path.abspath(__file__)), "c02_values.py"))
+    c02_values = importlib.util.module_from_spec(_sp)
+    _sp.loader.exec_module(c02_values)
+    c02_values.stage(ctx, binp)
     # ------------------------------------------------------------ exhaustive model checking
     fam = dict(FAMILY_QUICK)
     if thorough:
